@@ -95,6 +95,10 @@ def harness(eng, fam, P):
             clock['t'] += 1
             me = s.me()
             if me is not None and me.name == 'straggler' and s.running:
+                if op == 'open-r' and method in ('read_text', 'read_binary'):
+                    # read_* record their observation (the comparison: a stat with METADATA) and only afterwards open the
+                    # handle they return: that open is not an observation of the record
+                    return
                 clock['strag_obs'] = clock['t']
         w.env.hooks.append(tick)
 
